@@ -302,6 +302,9 @@ pub fn build_with<R: Res>(spec: &Spec, counters: &mut Counters) -> Result<Sel<R>
 pub struct Possible {
     pub ok: bool,
     pub errs: BTreeSet<Kind>,
+    /// the configuration is outside what the property constrains (e.g. dynamic weights whose
+    /// total does not fit in usize): any error is accepted, only panics and non-members are not
+    pub unconstrained: bool,
 }
 
 impl Possible {
@@ -309,16 +312,19 @@ impl Possible {
         Self {
             ok: true,
             errs: BTreeSet::new(),
+            unconstrained: false,
         }
     }
     fn err(k: Kind) -> Self {
         Self {
             ok: false,
             errs: BTreeSet::from([k]),
+            unconstrained: false,
         }
     }
     fn union(mut self, o: &Self) -> Self {
         self.ok |= o.ok;
+        self.unconstrained |= o.unconstrained;
         self.errs.extend(o.errs.iter().copied());
         self
     }
@@ -375,6 +381,11 @@ pub fn possible(spec: &Spec, n: usize, result_lens: &[usize]) -> Possible {
             let total: u128 = list.iter().map(|(_, w)| *w as u128).sum();
             if total == 0 {
                 return Possible::err(Kind::ZeroWeight);
+            }
+            if total > usize::MAX as u128 {
+                let mut p = Possible::ok();
+                p.unconstrained = true;
+                return p;
             }
             list.iter()
                 .filter(|(_, w)| *w > 0)
